@@ -747,7 +747,8 @@ fn elem_of(p: &Param, lib: &Lib) -> usize {
 fn gen_opts(lib: &Lib, r: &mut Rng, mode: CbMode) -> Opts {
     let mut overrides = vec![];
     for f in &lib.funcs {
-        if f.name.starts_with("c04_f") && f.tail.is_none() && !f.inline && !f.is_static && r.chance(1, 10) {
+        // (never for a function the header gives another convention: the override would make the binding lie about it)
+        if f.name.starts_with("c04_f") && f.tail.is_none() && !f.inline && !f.is_static && !f.ms_abi && r.chance(1, 10) {
             overrides.push((f.name.clone(), (*r.pick(&["C-unwind", "system", "C"])).to_string()));
         }
     }
